@@ -82,7 +82,7 @@ class Model:
             self.teams[j - 1].set_parent_team(self.teams[0])      # organisational tree (not simulated)
         for i, f in enumerate(cfg["facs"], 1):
             fac = BaseFacility(
-                "f%d" % i,
+                "f%d" % f.get("alias", i),
                 ID="".join(["F", "%d" % i]),
                 cost_per_time=float(f["cost"]),
                 solo_working=f["solo"],
@@ -134,7 +134,7 @@ class Model:
         Q = self.cfg["Q"]
         cls = BaseTask if self.plain else RankedTask
         kw = dict(
-            name="t%d" % i,
+            name="t%d" % t.get("alias", i),       # several tasks may carry the same name
             ID="".join(["T", "%d" % i]),
             default_work_amount=t["work"] / Q,
             default_progress=t["prog"] / 4,
